@@ -113,6 +113,8 @@ type Entry interface {
 	// The returned boolean will in indicate if the value remains existing (true) after the setintent.
 	// Or will disappear from device (running) as part of the update action.
 	remainsToExist() bool
+	// remainsExplicitly is remainsToExist without counting schema defaults
+	remainsExplicitly() bool
 	// shouldDelete returns true if an explicit delete should be issued for the given branch
 	shouldDelete() bool
 	// canDelete checks if the entry can be Deleted.
